@@ -7,11 +7,12 @@ props = [json.loads(l) for l in (V / 'properties.jsonl').read_text().splitlines(
 hook_commits = subprocess.run(['git', '-C', '/repo', 'log', '--format=%H %s'], capture_output=True, text=True).stdout.splitlines()
 hook_commits = [l.split()[0] for l in hook_commits if 'verif hook' in l]
 checks, na = [], []
+READY = set((V / 'tools' / 'ready.txt').read_text().split())
 NA_REASONS = {}
 for p in props:
     pid = p['id']
     f = V / 'pbt' / 'props' / f'{pid.lower()}.py'
-    if not f.exists():
+    if not f.exists() or pid not in READY:
         na.append({'property_id': pid, 'reason': NA_REASONS.get(pid, 'check not built yet (work in progress); the technique applies, see DESIGN.md section 2')})
         continue
     mod = importlib.import_module(f'pbt.props.{pid.lower()}')
